@@ -1024,9 +1024,13 @@ class Ctx:
             if m.group(2) == 'MAX':
                 return Int(b, s, (1 << (b - 1)) - 1 if s else (1 << b) - 1)
             return Int(b, s, -(1 << (b - 1)) if s else 0)
-        m = re.match(r'^\{alloc\d+: &(.*)\}$', text)
+        m = re.match(r'^\{(alloc\d+): &(.*)\}$', text)
         if m:
-            return Ref(Cell(Opaque('static', m.group(1))))
+            if m.group(2).strip() in ('&str', "&'static str"):
+                lit = self.mod.static_literal(m.group(1), f.name if f is not None else '')
+                if lit is not None:
+                    return Ref(Cell(Ref(Cell(S(lit=_unescape(lit[1:-1]), text=True)))))
+            return Ref(Cell(Opaque('static', m.group(2))))
         if text.startswith('ZeroSized: '):
             t = text[11:].strip()
             if t.startswith('{'):
